@@ -70,6 +70,19 @@ if __name__ == "__main__":
                     except Exception as e:
                         bad(f"{backend} {name} hbar={hb}: raised {type(e).__name__}: {e}")
                         continue
+                    # the operation objects are shared by every run of the program: a second run (fresh engine) must see the
+                    # same operations, whatever the hbar convention
+                    try:
+                        res2 = sf.Engine(backend, backend_options=kw).run(prog)
+                        obs2 = observe(res2.state, n, hb, backend)
+                        for k in obs:
+                            if not np.allclose(obs[k], obs2[k], atol=1e-8):
+                                bad(f"{backend} {name} hbar={hb}: running the same program a second time gives {k} = {np.round(obs2[k], 5).tolist()}, the first run gave {np.round(obs[k], 5).tolist()}")
+                                break
+                        if name == "homodyne-select" and abs(res2.samples[0, 0] - 0.4 * np.sqrt(hb)) > 1e-9:
+                            bad(f"{backend} {name} hbar={hb}: second run reports the outcome {res2.samples[0, 0]:.6f}, selected {0.4 * np.sqrt(hb):.6f}")
+                    except Exception as e:
+                        bad(f"{backend} {name} hbar={hb}: second run raised {type(e).__name__}: {e}")
                     if name not in ref:
                         ref[name] = (hb, obs)
                         continue
